@@ -455,7 +455,7 @@ func genItem(t *rapid.T) Item {
 	if form == "paren-plain" && pbt.Open("C07", fParenPlain) {
 		form = "paren-whole"
 	}
-	nullable := rapid.IntRange(0, 5).Draw(t, "nullable") == 0
+	nullable := rapid.IntRange(0, 5).Draw(t, "nullable") < 2
 	var e *Expr
 	switch form {
 	case "agg":
@@ -537,7 +537,7 @@ func alias(i int) string { return fmt.Sprintf("a%d", i) }
 
 func genCase(t *rapid.T) Case {
 	c := Case{Source: "tumbling", Windows: 1, SelectG: true}
-	if rapid.IntRange(0, 9).Draw(t, "source") < 3 {
+	if rapid.IntRange(0, 9).Draw(t, "source") >= 8 { // rapid favours small draws: most cases are multi-group
 		c.Source = "counting"
 	}
 	c.Upper = rapid.IntRange(0, 4).Draw(t, "upper") == 0
@@ -546,10 +546,13 @@ func genCase(t *rapid.T) Case {
 	maxGroups := 1
 	if c.Source == "tumbling" {
 		c.Windows = rapid.IntRange(1, 2).Draw(t, "windows")
-		ng := rapid.IntRange(1, 5).Draw(t, "ngroups")
+		ng := rapid.SampledFrom([]int{3, 4, 2, 5, 1}).Draw(t, "ngroups")
 		maxGroups = ng
 		for k := 0; k < c.Windows; k++ {
-			n := rapid.IntRange(1, 12).Draw(t, "nrows")
+			n := rapid.IntRange(1, 14).Draw(t, "nrows")
+			if n < ng && rapid.Bool().Draw(t, "fill") {
+				n = ng + 2
+			}
 			for i := 0; i < n; i++ {
 				r := genRow(t, id)
 				id++
@@ -638,7 +641,11 @@ func genCase(t *rapid.T) Case {
 		c.Order = nil
 	}
 	// LIMIT
-	if rapid.IntRange(0, 9).Draw(t, "limit") < 4 {
+	limitShare := 4
+	if len(c.Order) > 0 {
+		limitShare = 6
+	}
+	if rapid.IntRange(0, 9).Draw(t, "limit") < limitShare {
 		c.Limit = rapid.IntRange(1, maxGroups+1).Draw(t, "n")
 	}
 	return c
@@ -1123,6 +1130,51 @@ func runCase(c Case) (res pbt.Result) {
 	}
 	if dupExpected {
 		res.Class("distinct-removes-duplicate")
+	}
+	mixed, cuts, nullVal, strictPair := false, false, false, false
+	for _, id := range order {
+		eb := exp[id]
+		nYes, nNo := 0, 0
+		for _, r := range eb.all {
+			if r.pass == yes {
+				nYes++
+			} else if r.pass == no {
+				nNo++
+			}
+			for _, v := range r.vals {
+				if v.null {
+					nullVal = true
+				}
+			}
+		}
+		if nYes > 0 && nNo > 0 {
+			mixed = true
+		}
+		if c.Limit > 0 && c.Limit < eb.possible {
+			cuts = true
+		}
+		for i := range eb.rows {
+			for j := i + 1; j < len(eb.rows); j++ {
+				if cmpRows(c, eb.rows[i], eb.rows[j]) != 0 {
+					strictPair = true
+				}
+			}
+		}
+	}
+	if mixed {
+		res.Class("having:splits-a-batch")
+	}
+	if cuts {
+		res.Class("limit:cuts-a-batch")
+	}
+	if nullVal {
+		res.Class("null-item-value")
+	}
+	if strictPair {
+		res.Class("order-by:decides-a-pair")
+	}
+	if cuts && strictPair {
+		res.Class("limit+order:top-n")
 	}
 
 	// ---- feed ----
